@@ -413,6 +413,9 @@ type Flow struct {
 	// returned values; it lets a client analyse a function under an assumption on
 	// its input (e.g. "every character of the argument is 0x20").
 	EvalBool func(v ssa.Value) int8
+	// EvalBoolAt is EvalBool for an oracle whose answer depends on the client state of the path
+	// (used where a returned or merged bool value is classified).
+	EvalBoolAt func(v ssa.Value, s int) int8
 	// BranchOn is Branch for a condition that is not the If's own operand: when the
 	// If tests a local flag whose value on the current path is that of an earlier
 	// comparison (`publish := len(m) > 0; ...; if publish {`), the engine reports the
@@ -903,8 +906,8 @@ func (f *Flow) valueOf(v ssa.Value, c code, fi *flagInfo, b *ssa.BasicBlock) int
 		if k, ok := fi.slot[q]; ok && fi.current(q, b) {
 			if fv := c.f[k]; fv < 3 {
 				return fv
-			} else if f.EvalBool != nil {
-				return f.EvalBool(fi.leaves[fv-3])
+			} else if f.EvalBool != nil || f.EvalBoolAt != nil {
+				return f.evalAt(fi.leaves[fv-3], int(c.s))
 			}
 			return 0
 		}
@@ -912,14 +915,27 @@ func (f *Flow) valueOf(v ssa.Value, c code, fi *flagInfo, b *ssa.BasicBlock) int
 	if fv := flagLeaf(v, nil); fv != 0 {
 		return fv
 	}
-	if f.EvalBool != nil {
+	if f.EvalBool != nil || f.EvalBoolAt != nil {
 		w, neg := stripNot(v)
-		if ev := f.EvalBool(w); ev != 0 {
+		if ev := f.evalAt(w, int(c.s)); ev != 0 {
 			if neg {
 				return 3 - ev
 			}
 			return ev
 		}
+	}
+	return 0
+}
+
+// evalAt consults the state-aware oracle first, then the plain one.
+func (f *Flow) evalAt(v ssa.Value, s int) int8 {
+	if f.EvalBoolAt != nil {
+		if ev := f.EvalBoolAt(v, s); ev != 0 {
+			return ev
+		}
+	}
+	if f.EvalBool != nil {
+		return f.EvalBool(v)
 	}
 	return 0
 }
